@@ -151,3 +151,21 @@ package dt
 //@   modifies e.ok, e.item
 //@   ensures rejected: (e == nil || (old(e.list) != nil && old(e.list.root) == e)) ==> result == false
 //@   ensures accepted: !(e == nil || (old(e.list) != nil && old(e.list.root) == e)) ==> result == true && e.ok && e.item == v
+
+// Swap: nil operands, detached elements, elements of different lists, an
+// element with itself and the root sentinel are rejected (false, nothing
+// changes); otherwise the two members exchange positions.
+//@ func (*Element).Swap
+//@   props C16
+//@   requires (e != nil ==> allocated(e) && anchored(e)) && (with != nil ==> allocated(with) && anchored(with))
+//@   modifies e.list.length, Element.list, Element.next, Element.prev, e.list.elems, Element.idx
+//@   ensures rejected: (with == nil || e == nil || old(e.list) == nil || old(e.list) != old(with.list) || e == with || old(e.list.root) == e || old(e.list.root) == with) ==> result == false && (e != nil && old(e.list) != nil ==> e.list == old(e.list) && wf(e.list) && e.list.elems == old(e.list.elems)) && (with != nil && old(with.list) != nil ==> with.list == old(with.list) && with.list.elems == old(with.list.elems))
+//@   ensures swapped: !(with == nil || e == nil || old(e.list) == nil || old(e.list) != old(with.list) || e == with || old(e.list.root) == e || old(e.list.root) == with) ==> result == true && e.list == old(e.list) && with.list == old(e.list) && wf(e.list) && e.list.elems == swap(old(e.list.elems), old(e.idx), old(with.idx))
+
+// Drop removes the element (if it can be removed) and clears it.
+//@ func (*Element).Drop
+//@   props C16
+//@   requires e != nil && allocated(e) && anchored(e)
+//@   modifies e.list.length, e.list, e.prev.next, e.next.prev, e.list.elems, Element.idx, e.item, e.ok
+//@   ensures removed: old(e.list) != nil && old(e.list.root) != e ==> e.list == nil && !e.ok && wf(old(e.list)) && old(e.list).elems == remove(old(e.list.elems), old(e.idx))
+//@   ensures rejected: !(old(e.list) != nil && old(e.list.root) != e) ==> e.list == old(e.list) && e.ok == old(e.ok) && (e.list != nil ==> wf(e.list) && e.list.elems == old(e.list.elems))
